@@ -34,7 +34,8 @@ def configs(tier, seed):
     out = []
     for _ in range(want):
         out.append({'mask': rng.choice(['circle', 'offcentre', 'hex', 'islands']), 'n': rng.choice(sizes), 'modes': rng.choice(subsets),
-                    'normalize': rng.random() < 0.5, 'coords': rng.choice(['default', 'default', 'supplied'])})
+                    'normalize': rng.random() < 0.5, 'coords': rng.choice(['default', 'default', 'supplied']),
+                    'weighted': rng.random() < 0.3, 'forder': rng.random() < 0.3})
     out.append({'mask': 'circle', 'n': 7, 'modes': [4], 'normalize': True, 'coords': 'default'})
     out.append({'mask': 'circle', 'n': 6, 'modes': [2, 3], 'normalize': True, 'coords': 'default'})
     out.append({'mask': 'circle', 'n': 7, 'modes': [3, 1, 2], 'normalize': False, 'coords': 'supplied'})
@@ -46,6 +47,10 @@ def run(W, cfg):
     W.float_constants()
     Z = W.mod('zernike')
     mask = _mask(cfg['mask'], cfg['n'])
+    if cfg.get('weighted'):
+        # a mask whose non-zero entries are not all 1 (antialiased edge weights / integer labels): only its support may matter
+        rr, cc = rnp.mgrid[0:mask.shape[0], 0:mask.shape[1]]
+        mask = mask * (1 + ((rr + 2 * cc) % 3)) / 2.0
     modes = cfg['modes']
     kw = {}
     if cfg['coords'] == 'supplied':
@@ -72,6 +77,11 @@ def run(W, cfg):
     O = W.zeros(mask.shape)
     for (r, cc) in cells:
         O[r, cc] = W.real(f'o_{r}_{cc}', lo=-1, hi=1)
+    if cfg.get('forder'):
+        O = W.np.asfortranarray(O)          # same values and shape, column-major memory layout (e.g. data loaded from a .mat file)
+        fitF = Z.zernike_fit(W.np.asfortranarray(opd), mask, modes, normalize=cfg['normalize'], **kw)
+        for k in range(K):
+            W.ob_close(f'fit of a column-major OPD [{k}]', fitF[k], c[k], tol)
     if cfg['normalize']:
         # zernike_remove has no normalize argument: it works with normalised modes
         res = Z.zernike_remove(O, mask, modes, **kw)
